@@ -59,6 +59,11 @@ class Rule:
 
             # strip final new lines:
             for doc_key in ("description", "examples"):
+                if not isinstance(doc[doc_key], list):
+                    raise MalformedRuleSpec(
+                        f"Rule doc {doc_key} must be a list of strings, but found: "
+                        f"{doc[doc_key]!r}."
+                    )
                 for idx, item_i in enumerate(doc[doc_key]):
                     if not isinstance(item_i, str):
                         raise MalformedRuleSpec(
